@@ -80,6 +80,15 @@ def adoption_table(ctx, R, fn_name, field, param_ty):
                "%s adoption %s as specified (only a strictly newer certificate replaces the held one)" % (field, "reachable" if got else "unreachable") if exp == got else
                ("%s is overwritten when the held certificate's view is %s the new one's (must be strictly older)" % (field, {"=": "equal to", ">": "newer than"}.get(c, c)) if got else
                 "a strictly newer certificate is not adopted (cur=%s, cmp %s)" % (cur, c)), f.loc())
+    # ... and MUST be adopted then: with the write removed, no successful return is reachable when nothing is held or the held
+    # certificate is strictly older (an additional skip condition would leave the replica below a certificate it was given)
+    rets = set(Q.success_return_blocks(ctx, f)) if f.locals[0].s.startswith("std::result::Result<") else set(b for b, _ in Q.return_blocks_maybe_ok(ctx, f))
+    if writes and rets:
+        for val, key in (({"cur": "None", "cmp(cur.view,qc.view)": "<"}, "must adopt when none is held"), ({"cur": "Some", "cmp(cur.view,qc.view)": "<"}, "must adopt a strictly newer certificate")):
+            r = W.reachable(val, 0, frozenset(writes))
+            leak = r & rets
+            ctx.ob(R, "%s %s" % (field, key), not leak, "every successful return is preceded by %s := Some(qc)" % field if not leak else
+                   "%s can return Ok without adopting the certificate although %s: the replica stays below a certificate it has verified" % (fn_name, "it holds none" if val["cur"] == "None" else "the held one is strictly older"), f.loc())
     if W.unrecognised:
         ctx.note("%s %s: %d switch(es) not decided by the atoms, e.g. %s" % (R, fn_name, len(W.unrecognised), show(W.unrecognised[0][1])[:160]))
 
